@@ -1,0 +1,8 @@
+//go:build verif
+
+package store
+
+// VerifGcNow runs one collector pass synchronously (the production pass is on a 30 s timer).
+func (s *Storer) VerifGcNow() {
+	s.gcLog()
+}
